@@ -73,15 +73,15 @@ func run(s *kernel.Sim, _, cfg string) {
 			}
 			w := &written{u: id.String(), name: host, writer: name}
 			e := &querylog.Entry{
-				Time:         time.Date(2000, 1, 1, 0, 0, seq, 0, time.UTC),
-				RequestID:    id,
-				ProfileID:    agd.ProfileID(fmt.Sprintf("prof%d", t.Choose(3, "prof"))),
-				DeviceID:     agd.DeviceID(fmt.Sprintf("dev%d", t.Choose(5, "dev"))),
-				DomainFQDN:   host,
-				RequestType:  uint16(1 + t.Choose(40, "qtype")),
-				ResponseCode: dnsmsg.RCode(t.Choose(6, "rcode")),
-				Protocol:     agd.Protocol(1 + t.Choose(5, "proto")),
-				Elapsed:      time.Duration(t.Choose(2000, "elapsed")) * time.Millisecond,
+				Time:          time.Date(2000, 1, 1, 0, 0, seq, 0, time.UTC),
+				RequestID:     id,
+				ProfileID:     agd.ProfileID(fmt.Sprintf("prof%d", t.Choose(3, "prof"))),
+				DeviceID:      agd.DeviceID(fmt.Sprintf("dev%d", t.Choose(5, "dev"))),
+				DomainFQDN:    host,
+				RequestType:   uint16(1 + t.Choose(40, "qtype")),
+				ResponseCode:  dnsmsg.RCode(t.Choose(6, "rcode")),
+				Protocol:      agd.Protocol(1 + t.Choose(5, "proto")),
+				Elapsed:       time.Duration(t.Choose(2000, "elapsed")) * time.Millisecond,
 				ClientCountry: "DE",
 			}
 			if t.Chance(1, 2, "ip") {
